@@ -170,3 +170,11 @@ Example C14_prf_inhabited : forall k m : bytes, zlen ((fun _ _ => repeatz 0 20) 
 Proof. reflexivity. Qed.
 Example C14_designates_inhabited : designates [97; 98; 97; 110] 0.     (* "aban" -> abandon *)
 Proof. apply bip39_lookup. vm_compute. reflexivity. Qed.
+
+(* The constants written in the model are the constants of the SOURCE: coq/Generated/SrcConsts.v is regenerated
+   from /repo/buidl/*.py by harness/gen_coq_consts.py on every run; the statements are spelled out in
+   Proofs/ConstsTie.v (pbkdf2_is_source_stmt). *)
+From V Require Proofs.ConstsTie.
+Theorem C14_constants_match_source : ConstsTie.pbkdf2_is_source_stmt.
+Proof. exact ConstsTie.pbkdf2_is_source. Qed.
+Print Assumptions C14_constants_match_source.
